@@ -265,8 +265,18 @@ def write_edit(spec: T.Dict[str, T.Any], sd: str, where: str) -> None:
     render(spec, sd)
 
 
-def d_args(assign: T.Dict[str, str]) -> T.List[str]:
-    return [f'-D{k}={v}' for k, v in assign.items()]
+LONG_FORM = {'buildtype': '--buildtype', 'warning_level': '--warnlevel', 'default_library': '--default-library'}
+
+
+def d_args(assign: T.Dict[str, str], long_keys: T.Sequence[str] = ()) -> T.List[str]:
+    """-Dk=v, or the equivalent --long-option for the built-ins named in long_keys."""
+    out = []
+    for k, v in assign.items():
+        if k in long_keys and k in LONG_FORM:
+            out.append(f'{LONG_FORM[k]}={v}')
+        else:
+            out.append(f'-D{k}={v}')
+    return out
 
 
 def parse_buildoptions(js: str) -> T.Dict[str, T.Any]:
